@@ -1694,11 +1694,57 @@ def register_all(M):
     def m_map_new(it, args, callee):
         return SMap("map")
 
+    def default_of_type(t):
+        t = t.strip()
+        b = t.split("<")[0].split("::")[-1]
+        inner = t[t.index("<") + 1:t.rindex(">")] if "<" in t and t.endswith(">") else ""
+        if b == "HashMap":
+            return SMap("map")
+        if b == "String":
+            return SString([])
+        if b in ("Vec", "VecDeque"):
+            return SVec([])
+        if b == "bool":
+            return False
+        if b in ("u8", "u16", "u32", "u64", "usize", "i8", "i16", "i32", "i64", "isize", "char"):
+            return 0
+        if b == "Option":
+            return none()
+        if b == "PathBuf":
+            return Opaque("PathBuf", ())
+        if b == "RefCell":
+            return Agg("adt:RefCell", None, [default_of_type(inner), 0])
+        if b == "Cell":
+            return Agg("adt:Cell", None, [default_of_type(inner)])
+        if b == "Box":
+            return Box(default_of_type(inner))
+        if t.startswith("(") and t.endswith(")"):
+            parts = [x for x in split_top(t[1:-1]) if x.strip()]
+            return Agg("tuple", None, [default_of_type(x) for x in parts]) if parts else UNIT
+        raise Unsupported("no model for `<%s as Default>::default`" % t)
+
+    def split_top(sx):
+        out, depth, cur = [], 0, ""
+        for ch in sx:
+            if ch in "<([":
+                depth += 1
+            elif ch in ">)]":
+                depth -= 1
+            if ch == "," and depth == 0:
+                out.append(cur)
+                cur = ""
+            else:
+                cur += ch
+        out.append(cur)
+        return out
+
     @reg("Default::default")
     def m_trait_default(it, args, callee):
         """`<T as Default>::default()` for the std types the executor models."""
         c = callee.strip()
-        t = c[1:].split(" as ")[0].strip() if c.startswith("<") else ""
+        t = c[1:].rsplit(" as ", 1)[0].strip() if c.startswith("<") else ""
+        if t.split("<")[0].split("::")[-1] in ("RefCell", "Cell", "Box", "VecDeque") or t.startswith("("):
+            return default_of_type(t)
         b = t.split("<")[0].split("::")[-1]
         if b == "HashMap":
             return SMap("map")
